@@ -321,6 +321,8 @@ pub mod lir {
 
             /*@FN_EMIT_RETURN@*/
 
+            /*@FN_EMIT_MEMCPY@*/
+
             /*@FN_OFFSET@*/
 
             /*@FN_NEW_TMP@*/
